@@ -76,7 +76,13 @@ type clockCtl struct {
 	short    time.Duration
 	segStart time.Time
 	held     []heldAnswer
+	bg       bool // the memory backend's StartCleanup ticker is running: a Sweep step waits for it instead of calling CleanupExpired
 }
+
+const (
+	bgInterval = 1 * time.Millisecond
+	bgWait     = 5 * time.Millisecond // several ticker periods (if the ticker goroutine is starved the sweep simply has not happened yet)
+)
 
 // heldAnswer: a list / hash answer as received (got: the very object the backend returned) and a deep copy
 // taken at that moment; compared again after all later operations (Held event).
@@ -234,20 +240,32 @@ func runOp(st backend, c *clockCtl, o step) map[string]any {
 			return errRes(err)
 		}
 		return res("int", n)
+	case "Sweep":
+		// the expiry sweep: an explicit CleanupExpired (a no-op on Redis), or - bg - the storage's own ticker goroutine
+		if c.bg {
+			time.Sleep(bgWait)
+			return res("ok", "")
+		}
+		if err := st.CleanupExpired(); err != nil {
+			return errRes(err)
+		}
+		return res("ok", "")
 	}
 	panic(fmt.Sprintf("unknown op %v", o))
 }
 
 type behaviour struct {
-	Backend  string   `json:"backend"`
-	Steps    []step   `json:"steps,omitempty"`
-	Prog     [][]step `json:"prog,omitempty"` // concurrent program: one script per client goroutine
-	Rep      int      `json:"rep,omitempty"`
-	Hammer   string   `json:"hammer,omitempty"` // "hash": tight concurrent loops on one hash key (no per-op events)
-	Race     string   `json:"race,omitempty"`   // SetNX | CAS | IncrBy | Append: Racers callers per round on one fresh key
-	Racers   int      `json:"racers,omitempty"`
-	Rounds   int      `json:"rounds,omitempty"`
-	BudgetMs int      `json:"budget_ms,omitempty"`
+	Backend  string      `json:"backend"`
+	Steps    []step      `json:"steps,omitempty"`
+	Prog     [][]step    `json:"prog,omitempty"` // concurrent program: one script per client goroutine
+	Rep      int         `json:"rep,omitempty"`
+	Hammer   string      `json:"hammer,omitempty"` // "hash": tight concurrent loops on one hash key (no per-op events)
+	Race     string      `json:"race,omitempty"`   // SetNX | CAS | IncrBy | Append: Racers callers per round on one fresh key
+	Racers   int         `json:"racers,omitempty"`
+	Rounds   int         `json:"rounds,omitempty"`
+	BudgetMs int         `json:"budget_ms,omitempty"`
+	Bg       bool        `json:"bg,omitempty"`    // sequential behaviour with the StartCleanup ticker running (memory backend)
+	Sweep    *sweepBatch `json:"sweep,omitempty"` // sweep-race batch (sweep.go)
 }
 
 // ---- concurrent part: runs in a child process so that a fatal runtime error ("concurrent map
@@ -261,6 +279,10 @@ func childMain() {
 	}
 	ctx, cancel := context.WithCancel(context.Background())
 	defer cancel()
+	if beh.Sweep != nil {
+		childSweep(beh.Sweep)
+		return
+	}
 	m := memory.New(ctx)
 	c := &clockCtl{short: shortTTL}
 	if beh.Race != "" {
@@ -389,16 +411,41 @@ func childRace(m *memory.Storage, beh behaviour) {
 					case 0:
 						// let the readers' expiry checks go first: the window is "reader saw the entry expired,
 						// writer Sets, reader evicts"; vary the writer's delay by a few hundred nanoseconds
-						for j := 0; j < (int(curRound.Load())%8)*40; j++ {
+						rd := int(curRound.Load())
+						for j := 0; j < (rd%8)*40; j++ {
 							spin.Add(1)
 						}
-						m.Set(k, "fresh", 0)
+						// every operation that writes over an expired entry (spec/MemImpl.tla: each is one write-locked section)
+						switch (rd / 8) % 6 {
+						case 0:
+							m.Set(k, "fresh", 0)
+						case 1:
+							m.SetNX(k, "fresh", 0)
+						case 2:
+							m.CompareAndSwap(k, nil, "fresh", 0)
+						case 3:
+							m.IncrBy(k, 1)
+						case 4:
+							m.SetHash(k, "f", "fresh")
+						case 5:
+							m.AppendToList(k, "fresh")
+						}
 					case 1:
 						m.GetExpiration(k)
 					case 2:
 						m.GetHash(k, "f")
 					case 3:
 						m.GetAllHash(k)
+					}
+					if i == 7 { // one racer in eight also takes the read paths that only answer today (lazy deletion there would race the same way)
+						switch int(curRound.Load()) % 3 {
+						case 0:
+							m.Get(k)
+						case 1:
+							m.Exists(k)
+						case 2:
+							m.GetList(k)
+						}
 					}
 				}
 				done.Add(1)
@@ -448,7 +495,9 @@ func childRace(m *memory.Storage, beh behaviour) {
 			l, _ := m.GetList(k)
 			o.final = int64(len(l))
 		case "ExpSet":
-			if v, err := m.Get(k); err == nil && v == "fresh" {
+			// whatever the writers' operation was, the key is live afterwards (Set / SetNX / CAS(nil) / IncrBy / SetHash / Append
+			// on an expired entry all create it anew; the second writer finds it live and leaves it live)
+			if ex, err := m.Exists(k); err == nil && ex {
 				o.final = 1
 			}
 		}
@@ -467,10 +516,17 @@ func childRace(m *memory.Storage, beh behaviour) {
 // at once starve each other and the race windows are no longer hit.
 var raceSem = make(chan struct{}, 3)
 
+// sweep-race batches: four writers, a sweeper and the ticker goroutine each, in short bursts
+var sweepSem = make(chan struct{}, 4)
+
 func driveConc(beh behaviour, raw []byte) *fw.Trace {
 	if beh.Race != "" {
 		raceSem <- struct{}{}
 		defer func() { <-raceSem }()
+	}
+	if beh.Sweep != nil {
+		sweepSem <- struct{}{}
+		defer func() { <-sweepSem }()
 	}
 	exe, err := os.Executable()
 	if err != nil {
@@ -495,6 +551,9 @@ func driveConc(beh behaviour, raw []byte) *fw.Trace {
 		}
 		if e["ev"] == "ChildDone" {
 			done = true
+			if r, ok := e["rounds"].(float64); ok && r == 0 && runErr == nil {
+				return &fw.Trace{Status: fw.Inconclusive, Note: "every sweep-race round exceeded its timing budget"}
+			}
 			continue
 		}
 		t.Events = append(t.Events, e)
@@ -518,12 +577,57 @@ func driveConc(beh behaviour, raw []byte) *fw.Trace {
 	return &fw.Trace{Status: fw.DriverError, Note: fmt.Sprintf("child failed: %v: %s", runErr, stderr)}
 }
 
+// The driver-made concurrent cases (hammer, race rounds, sweep-race batches) are time-boxed children that mostly wait
+// for their own clocks; the framework drives them last. They are started when they are made (ExtraBeh) so that they
+// run alongside the sequential behaviours instead of after them; Drive then only collects the trace. (A replay has no
+// ExtraBeh call: Drive runs the child itself.)
+var pre struct {
+	sync.Mutex
+	m map[string]chan *fw.Trace
+}
+
+func prestart(data json.RawMessage) {
+	var beh behaviour
+	if json.Unmarshal(data, &beh) != nil {
+		return
+	}
+	ch := make(chan *fw.Trace, 1)
+	pre.Lock()
+	if pre.m == nil {
+		pre.m = map[string]chan *fw.Trace{}
+	}
+	pre.m[string(data)] = ch
+	pre.Unlock()
+	go func() {
+		defer func() {
+			if r := recover(); r != nil {
+				ch <- &fw.Trace{Status: fw.DriverError, Note: fmt.Sprint("prestarted child: ", r)}
+			}
+		}()
+		ch <- driveConc(beh, data)
+	}()
+}
+
+func prestarted(data json.RawMessage) *fw.Trace {
+	pre.Lock()
+	ch := pre.m[string(data)]
+	delete(pre.m, string(data))
+	pre.Unlock()
+	if ch == nil {
+		return nil
+	}
+	return <-ch
+}
+
 func drive(env *fw.Env, b fw.Behaviour) *fw.Trace {
 	var beh behaviour
 	if err := json.Unmarshal(b.Data, &beh); err != nil {
 		return &fw.Trace{Status: fw.DriverError, Note: err.Error()}
 	}
-	if beh.Prog != nil || beh.Hammer != "" || beh.Race != "" {
+	if t := prestarted(b.Data); t != nil {
+		return t
+	}
+	if beh.Prog != nil || beh.Hammer != "" || beh.Race != "" || beh.Sweep != nil {
 		return driveConc(beh, b.Data)
 	}
 	ctx, cancel := context.WithCancel(context.Background())
@@ -535,6 +639,13 @@ func drive(env *fw.Env, b fw.Behaviour) *fw.Trace {
 		m := memory.New(ctx)
 		defer m.Close()
 		st = m
+		if beh.Bg {
+			// the ticker goroutine, restarted once (a StartCleanup after a StopCleanup must sweep too)
+			m.StartCleanup(time.Hour)
+			m.StopCleanup()
+			m.StartCleanup(bgInterval)
+			c.bg = true
+		}
 	case "redis":
 		mr, err := miniredis.Run()
 		if err != nil {
@@ -568,12 +679,10 @@ func drive(env *fw.Env, b fw.Behaviour) *fw.Trace {
 			t.Events = append(t.Events, fw.Event{"ev": "Tick"})
 			continue
 		}
-		o := step{}
-		for k, v := range s {
-			if k != "exp" {
-				o[k] = v
-			}
+		if s["op"] == "Evict" { // generator bookkeeping of spec/MemImpl.tla: the second section of the read before it
+			continue
 		}
+		o := clean(s)
 		r := runOp(st, c, o)
 		t.Events = append(t.Events, fw.Event{"ev": "Op", "o": o, "res": r, "be": beh.Backend})
 		// a read of the touched key after every mutating step: the generated behaviours are shortest paths of
@@ -669,6 +778,44 @@ func probes(steps []step) []step {
 	return out
 }
 
+// showDeviations: under each named deviation of spec/MemImpl.tla TLC must exhibit the violated clause
+// (MemImpl_show_*.cfg) - the model really contains the mechanism and the invariants are not vacuous.
+var showResult chan error
+
+func showDeviations(env *fw.Env) error {
+	type show struct{ cfg, inv string }
+	shows := []show{{"MemImpl_show_sweepnorecheck.cfg", "StoresAgree"}, {"MemImpl_show_evictnorecheck.cfg", "StoresAgree"}, {"MemImpl_show_sweepptr.cfg", "StoresAgree"}}
+	if env.Tier == "thorough" {
+		shows = append(shows, show{"MemImpl_show_sweepnaive.cfg", "StoresAgree"}, show{"MemImpl_show_lazyreads.cfg", "StoresAgree"},
+			show{"MemImpl_show_oldcas.cfg", "AnswersAgree"}, show{"MemImpl_show_oldsetexp.cfg", "StoresAgree"})
+	}
+	errs := make([]error, len(shows))
+	var wg sync.WaitGroup
+	sem := make(chan struct{}, 3)
+	for i, sh := range shows {
+		wg.Add(1)
+		go func(i int, sh show) {
+			defer wg.Done()
+			sem <- struct{}{}
+			defer func() { <-sem }()
+			r, err := fw.RunTLC(fw.TLCJob{Name: "show:" + sh.cfg, Module: "MemImpl", Cfg: sh.cfg, Workers: 1})
+			if err != nil {
+				errs[i] = err
+			} else if r.OK || !strings.Contains(r.Violation, sh.inv) {
+				errs[i] = fmt.Errorf("spec/%s no longer exhibits %s violated (ok=%v violation=%q)", sh.cfg, sh.inv, r.OK, r.Violation)
+			}
+		}(i, sh)
+	}
+	wg.Wait()
+	for _, err := range errs {
+		if err != nil {
+			return err
+		}
+	}
+	fmt.Printf("[model] %d named deviations of spec/MemImpl.tla: TLC exhibits the violated clause for each (expected)\n", len(shows))
+	return nil
+}
+
 func main() {
 	if len(os.Args) > 1 && os.Args[1] == "--child" {
 		childMain()
@@ -678,15 +825,28 @@ func main() {
 		ID:        "C13",
 		DesignRef: "DESIGN.md §5 C13",
 		ModelJobs: func(env *fw.Env) []fw.TLCJob {
-			// implementation-shaped model of the memory backend refines the reference (all reachable maps x all operations)
+			// implementation-shaped model of the memory backend, section by section (two clients, the explicit and the ticker
+			// sweeper, clock ticks anywhere), refines the reference: all reachable maps x all operations, also mid-sweep
+			showResult = make(chan error, 1)
+			go func() { showResult <- showDeviations(env) }()
 			fams := []string{`{"s1"}`, `{"l1"}`, `{"h1"}`, `{"c1"}`}
 			if env.Tier == "thorough" {
-				fams = append(fams, `{"s1", "s2"}`, `{"s1", "l1"}`)
+				fams = append(fams, `{"s1", "s2"}`, `{"s1", "l1"}`, `{"h1", "c1"}`)
+			}
+			mk := func(name, keys, sweep, lazy string) fw.TLCJob {
+				return fw.TLCJob{Name: name, Module: "MemImpl", Cfg: "MemImpl.cfg", Workers: 4,
+					Consts: map[string]string{"KEYS": keys, "OLDCAS": "FALSE", "OLDSETEXP": "FALSE", "PROCS": `{"p1", "p2"}`, "SWEEPERS": `{"ex", "bg"}`,
+						"SWEEP": sweep, "LAZY": lazy}}
 			}
 			var jobs []fw.TLCJob
 			for i, k := range fams {
-				jobs = append(jobs, fw.TLCJob{Name: fmt.Sprintf("mc:MemImpl:%d", i), Module: "MemImpl", Cfg: "MemImpl.cfg", Workers: 4,
-					Consts: map[string]string{"KEYS": k, "OLDCAS": "FALSE", "OLDSETEXP": "FALSE"}})
+				jobs = append(jobs, mk(fmt.Sprintf("mc:MemImpl:%d", i), k, `"locked"`, "FALSE"))
+			}
+			if env.Tier == "thorough" {
+				// the correct variants: a two-section sweep that tests again before deleting; lazy deletion on every read path with the re-test
+				for i, k := range append(fams[:4:4], `{"s1", "s2"}`, `{"h1", "c1"}`) {
+					jobs = append(jobs, mk(fmt.Sprintf("mc:MemImpl:scan_recheck+lazy:%d", i), k, `"scan_recheck"`, "TRUE"))
+				}
 			}
 			return jobs
 		},
@@ -698,6 +858,12 @@ func main() {
 			var jobs []fw.TLCJob
 			for _, c := range cfgs {
 				jobs = append(jobs, fw.TLCJob{Name: "gen:" + c, Module: "KV", Cfg: c, Consts: map[string]string{"EMIT": "TRUE"}, Workers: 4})
+			}
+			// the sweep from every reachable (map, reference, clock) of the implementation-shaped model, and every operation
+			// that can land between the scan and the delete of a sweep (sweep.go)
+			for i, k := range []string{`{"s1"}`, `{"l1"}`, `{"h1"}`, `{"c1"}`} {
+				jobs = append(jobs, fw.TLCJob{Name: fmt.Sprintf("gen:MemImpl:%d", i), Module: "MemImpl", Cfg: "MemImpl_gen.cfg", Workers: 1,
+					Consts: map[string]string{"KEYS": k}})
 			}
 			// concurrent programs (3 clients x 3 operations per key-type family), drawn by TLC simulation
 			num := "num=12"
@@ -731,6 +897,15 @@ func main() {
 			if err := json.Unmarshal(raw, &steps); err != nil {
 				panic(err)
 			}
+			if strings.HasPrefix(src, "gen:MemImpl") {
+				if steps[len(steps)-1]["op"] != "Sweep" {
+					addRecipe(env, src, steps) // an operation landing between scan and delete: driven in batches (ExtraBeh)
+					return nil
+				}
+				// [path, Sweep]: with an explicit CleanupExpired, with the storage's own ticker goroutine, and on Redis (no sweep)
+				steps = seqSteps(steps)
+				out = append(out, fw.MustJSON(map[string]any{"backend": "memory", "steps": steps, "bg": true}))
+			}
 			out = append(out, fw.MustJSON(map[string]any{"backend": "memory", "steps": steps}))
 			if inRedisScope(steps) {
 				out = append(out, fw.MustJSON(map[string]any{"backend": "redis", "steps": steps}))
@@ -742,7 +917,7 @@ func main() {
 			if env.Tier == "thorough" {
 				n = 40
 			}
-			var out []json.RawMessage
+			out := sweepBatches(env)
 			for i := 0; i < n; i++ {
 				out = append(out, fw.MustJSON(behaviour{Backend: "memory", Hammer: "hash", Rep: i + 1}))
 			}
@@ -759,12 +934,19 @@ func main() {
 					out = append(out, fw.MustJSON(behaviour{Backend: "memory", Race: kind, Racers: 8, Rounds: rounds, BudgetMs: budget, Rep: r + 1}))
 				}
 			}
+			for _, d := range out {
+				prestart(d)
+			}
 			return out
 		},
 		SelfTest: func(env *fw.Env, acc []*fw.Trace) []*fw.Trace {
 			// flip one recorded result per trace: found<->not-found, true<->false, n<->n+1
 			var out []*fw.Trace
 			id := 1 << 24
+			// sweep-race batches first (a flipped answer after `Racing` must be rejected under NotAtomic like any other)
+			sort.SliceStable(acc, func(i, j int) bool {
+				return bytes.Contains(acc[i].Beh.Data, []byte(`"sweep":`)) && !bytes.Contains(acc[j].Beh.Data, []byte(`"sweep":`))
+			})
 			for _, t := range acc {
 				if len(out) >= 60 {
 					break
@@ -812,6 +994,12 @@ func main() {
 			}
 			return out
 		},
+		PostDrive: func(env *fw.Env, _ []*fw.Trace) error {
+			if showResult == nil { // replay
+				return nil
+			}
+			return <-showResult
+		},
 		JudgeFor: func(t *fw.Trace) (string, string) {
 			var beh behaviour
 			json.Unmarshal(t.Beh.Data, &beh)
@@ -824,9 +1012,10 @@ func main() {
 		Parallel:    64,
 		JudgeModule: "KVTrace",
 		JudgeCfg:    "KVTrace.cfg",
-		Rule:        "one behaviour per transition (state, operation) of the reference KV state graph per key-type family, replayed on each backend; non-trivial = realised trace with at least 2 operations",
-		Assumptions: []string{"short TTL 120ms / tick 200ms realise the model's discrete clock on the memory backend; behaviours that overran the margin are discarded as inconclusive",
-			"miniredis stands in for Redis; its clock is advanced virtually"},
+		Rule:        "one behaviour per transition (state, operation) of the reference KV state graph per key-type family, replayed on each backend; one per (state, Sweep) of the implementation-shaped model; one sweep-race recipe per (state with a sweep between scan and delete, operation); non-trivial = realised trace with at least 2 operations",
+		Assumptions: []string{"short TTL 120ms / tick 200ms realise the model's discrete clock on the memory backend (600ms / 900ms in the sweep-race batches); behaviours and rounds that overran the margin are discarded as inconclusive",
+			"miniredis stands in for Redis; its clock is advanced virtually",
+			"there is no seam inside the mutex sections of the memory backend: what races (callers, evicting reads, the sweep) runs free, many keys and rounds per recipe; a window that was never hit is not reported"},
 		TrustedBase: []string{"TLC", "spec/KVRef.tla as the reading of 'simple sequential map with expiry'", "result normalisation in drivers/c13"},
 	})
 }
